@@ -34,7 +34,7 @@ def run(tier, replay=None):
             groups.setdefault(c['group'], []).append((c, r, v))
         ngroups = nvariants = agree_but_not_spec = 0
         for gid, members in groups.items():
-            dom = [(c, r, v) for c, r, v in members if v['v'] != 'skip']
+            dom = [(c, r, v) for c, r, v in members if v['v'] != 'skip' and r['status'] != 'skipped']
             if len(dom) < 2:
                 continue
             ngroups += 1; nvariants += len(dom)
